@@ -199,3 +199,21 @@ package core
 //@   assert-call startRecording: called(Recorder.Close) == b2i(old(pa.recorder) != nil && recChanged())
 //@   ensures [recorder-restarted-iff-recording-parameters-changed] called(Recorder.Close) == b2i(old(pa.recorder) != nil && recChanged())
 //@   ensures [forwarder-gets-new-destinations] called(Manager.ReloadConf) == 1
+
+//@ func (pm *pathManager) doDescribe
+//@   property C03
+//@   safety -all
+//@   assert-call FindPathConf: pathConfs == pm.pathConfs && name == req.AccessRequest.Name
+//@   assert-call ToAuthRequest: true
+//@   assert-call Authenticate: !caller_req.AccessRequest.SkipAuth && req == resultof(ToAuthRequest) && called(ToAuthRequest) == 1
+//@   assert-call createPath: resultof(FindPathConf, 2) == nil && (caller_req.AccessRequest.SkipAuth || (called(Authenticate) == 1 && resultof(Authenticate, 1) == nil)) && pathConf == resultof(FindPathConf, 0)
+//@   assert-call Int64.Add: resultof(FindPathConf, 2) == nil && (caller_req.AccessRequest.SkipAuth || (called(Authenticate) == 1 && resultof(Authenticate, 1) == nil))
+
+// the configuration lookup used by the protocol servers before a publish/read (no SkipAuth here): it always authenticates
+//@ func (pm *pathManager) doFindPathConf
+//@   property C03
+//@   safety -all
+//@   assert-call FindPathConf: pathConfs == pm.pathConfs && name == req.AccessRequest.Name
+//@   assert-call ToAuthRequest: true
+//@   assert-call Authenticate: req == resultof(ToAuthRequest) && called(ToAuthRequest) == 1 && resultof(FindPathConf, 2) == nil
+//@   ensures [always-authenticates-a-resolved-name] called(FindPathConf) == 1 && (resultof(FindPathConf, 2) == nil ==> called(Authenticate) == 1)
